@@ -319,6 +319,9 @@ func authenticateUser(deps ServerDeps, conn net.Conn, tag string, username strin
 		InsecureSkipVerify: true, // #nosec G402 -- Required for internal auth server communication
 	}
 	transport := &http.Transport{TLSClientConfig: tlsConfig}
+	// the transport lives for this one request: without this its keep-alive connection (a descriptor and two
+	// goroutines) stays open after the request for as long as the backend tolerates it
+	defer transport.CloseIdleConnections()
 	client := &http.Client{Transport: transport, Timeout: 10 * time.Second}
 
 	resp, err := client.Do(req)
